@@ -650,6 +650,16 @@ fn compare(case: &Case, m: &Value, r: &Value) -> Result<(), Violation> {
 
 /// build and run a set of cases; None when the machinery itself failed (reported as exit 2)
 fn evaluate(ctx: &Ctx, cases: &[(u32, &Case)], nbins: usize) -> Option<Vec<(u32, Violation)>> {
+    let r = evaluate_inner(ctx, cases, nbins);
+    // the generated sources are not kept: left behind, they would be rebuilt by every later
+    // build of the workspace (unless VERIF_KEEP_GENERATED is set, for debugging)
+    if std::env::var("VERIF_KEEP_GENERATED").is_err() {
+        let _ = std::fs::remove_dir_all(harness_dir().join("c18gen/src/bin"));
+    }
+    r
+}
+
+fn evaluate_inner(ctx: &Ctx, cases: &[(u32, &Case)], nbins: usize) -> Option<Vec<(u32, Violation)>> {
     let tables = write_bins(cases, nbins);
     let mut violations = vec![];
     match build_bins(&tables) {
